@@ -31,6 +31,9 @@ func prefixIntrinsic(name string) intrinsic {
 			return nil
 		}
 		return func(m *Machine, args []Value) Value { return nil }
+	case strings.HasPrefix(name, "(*github.com/syndtr/goleveldb/leveldb.Batch)."):
+		// recording side of a write batch; the wallet layer keeps its own puts/deletes maps
+		return func(m *Machine, args []Value) Value { return nil }
 	case strings.HasPrefix(name, "(*sync.WaitGroup)."):
 		return func(m *Machine, args []Value) Value { return nil }
 	}
